@@ -1,4 +1,5 @@
 import Gv.Proofs.ClustalRT3
+import Gv.Proofs.Utf8Norm
 /-!
 Clustal round trip, helper development, part 4: the header line, the end of `Parse`, `Parse` on the writer's
 output; rows over the property's residue alphabet are rows the parser reads back.
@@ -137,7 +138,7 @@ theorem parse_written (c : Bool) (version : Seq) (hv : ∀ b ∈ version, b ≠ 
 
 /-! ### rows over the property's alphabets -/
 
-theorem segOk_of (sg : Seq) (hne : sg ≠ []) (hres : ∀ b ∈ sg, Res b)
+theorem segOk_of (sg : Seq) (hne : sg ≠ []) (hres : ∀ b ∈ sg, Res b) (hasc : ∀ b ∈ sg, b < 0x80)
     (hkw : (∀ b ∈ sg, upper b ≠ 76) ∨ (∀ b ∈ sg, upper b ≠ 85)) : SegOk sg := by
   refine ⟨⟨hne, fun b hb => ⟨(hres b hb).1, (hres b hb).2.1⟩⟩, ?_⟩
   have hp := parseInt64_none sg hne (fun b hb => ⟨(hres b hb).2.2.1, (hres b hb).2.2.2⟩)
@@ -151,9 +152,12 @@ theorem segOk_of (sg : Seq) (hne : sg ≠ []) (hres : ∀ b ∈ sg, Res b)
     | inr h => exact h b2 hb2 e2
   have k1 := hno [67, 76, 85, 83, 84, 65, 76] (by decide) (by decide)
   have k2 := hno [67, 76, 85, 83, 84, 65, 76, 87] (by decide) (by decide)
-  simp [classify, hp, k1, k2]
+  have hu : Utf8.upperLit sg = sg.map upper :=
+    Gv.Proofs.Utf8Norm.upperLit_ascii sg (Gv.Proofs.Utf8Norm.allAscii_of_forall sg hasc)
+  simp [classify, hp, hu, k1, k2]
 
 theorem rowOk_of (L : Nat) (r : XRow) (hname : NameOk r.1) (hlen : r.2.length = L) (hres : ∀ b ∈ r.2, Res b)
+    (hasc : ∀ b ∈ r.2, b < 0x80)
     (hkw : (∀ b ∈ r.2, upper b ≠ 76) ∨ (∀ b ∈ r.2, upper b ≠ 85)) : RowOk L W r := by
   refine ⟨hname, ?_, hlen⟩
   intro cur hc
@@ -165,6 +169,7 @@ theorem rowOk_of (L : Nat) (r : XRow) (hname : NameOk r.1) (hlen : r.2.length = 
     have := W_pos
     omega
   · exact fun b hb => hres b (hsub b hb)
+  · exact fun b hb => hasc b (hsub b hb)
   · cases hkw with
     | inl h => exact Or.inl (fun b hb => h b (hsub b hb))
     | inr h => exact Or.inr (fun b hb => h b (hsub b hb))
